@@ -105,12 +105,12 @@ type Bind struct {
 }
 
 type T struct {
-	K    Kind
-	N, D int64   // KQ
-	V    float64 // KQ: n/d
-	Name string  // KS: tensor name, KC: constant name, KA: function
-	I    int     // KS: 1-based element
-	Args []*T
+	K      Kind
+	N, D   int64   // KQ
+	V      float64 // KQ: n/d
+	Name   string  // KS: tensor name, KC: constant name, KA: function
+	I      int     // KS: 1-based element
+	Args   []*T
 	Ix     *Ix    // KSX
 	Var    string // KBS, KLet, KRV
 	Lo, Hi int    // KBS
